@@ -197,6 +197,15 @@ def run_real(ctx, sym, ops):
                         exp = (cls.get_default_value(k), cls.get_default_lower_limit(k), cls.get_default_upper_limit(k), cls.is_fixed_by_default(k))
                         if got != exp:
                             ctx.add_failing("reset", hist_s(sym, hist), observed=got, expected=exp, clause="resetting restores the class defaults")
+                    # ... of the named parameters only: every other parameter keeps its value, limits and fixed flag
+                    keys = list(e.get_values())
+                    for k in keys:
+                        if k in ks:
+                            continue
+                        now = (e.get_value(k), e.get_lower_limit(k), e.get_upper_limit(k), e.is_fixed(k))
+                        was = (dict(before[0])[k], dict(before[1])[k], dict(before[2])[k], dict(before[3])[k])
+                        if not eqnan(now, was):
+                            ctx.add_failing("reset-touched-other-parameter", hist_s(sym, hist), observed=f"{k}: {now}", expected=f"{k}: {was}", clause="resetting (a subset of the parameters) restores the class defaults of those parameters")
                 except KeyError as x:
                     out.append(f"err KeyError {show(e)}")
                     if not eqnan(snapshot(e), before):
